@@ -163,8 +163,7 @@ func (t *Tokenizer) Reset() {
 	// Don't reset keywords as they're constant
 	t.logger = nil
 
-	// Preserve Comments slice capacity but reset length
-	if cap(t.Comments) > 0 {
-		t.Comments = t.Comments[:0]
-	}
+	// Comments are handed to the caller through the exported field, so the next run
+	// must not write into the same backing array
+	t.Comments = nil
 }
